@@ -59,3 +59,32 @@ func SpecSplit(p Parser) bool       { panic("abstract spec function") }
 //@ func Parser.Key(self) (k)
 //@   trusted accessor: the key of the value being parsed
 //@   modifies nothing
+
+// ---- zipmap item lengths (zipmap.c zipmapDecodeLength): a byte 0..253 is the length itself, 254
+// ---- (ZIPMAP_BIGLEN) announces a 4-byte little-endian length, 255 ends the map; a value's length
+// ---- is followed by one byte counting the unused bytes behind the value.
+//@ func readZipmapItemLength
+//@   arith bv
+//@   properties C03
+//@   replay rdb_zipmap
+//@   requires nonnil: buf != nil
+//@   modifies buf.i
+//@   ensures end_marker: old(buf.s[buf.i]) == 255 ==> result0 == 0 - 1 && result1 == 0 && buf.i == old(buf.i) + 1
+//@   ensures a_byte_up_to_253_is_the_length_itself: old(buf.s[buf.i]) < 254 ==> result0 == int(old(buf.s[buf.i])) && buf.i == old(buf.i) + 1 + ite(readFree, 1, 0) && result1 == ite(readFree, int(old(buf.s[buf.i + 1])), 0)
+//@   ensures byte_254_announces_four_bytes_little_endian: old(buf.s[buf.i]) == 254 ==> result0 == int(uint32(old(buf.s[buf.i + 1])) | uint32(old(buf.s[buf.i + 2])) << 8 | uint32(old(buf.s[buf.i + 3])) << 16 | uint32(old(buf.s[buf.i + 4])) << 24) && buf.i == old(buf.i) + 5 + ite(readFree, 1, 0) && result1 == ite(readFree, int(old(buf.s[buf.i + 5])), 0)
+
+// CountZipmapItems (zmlen >= 254: the count is established by walking): a field and its value are one
+// item, and the cursor is put back behind the <zmlen> byte, where the caller stands.
+//   zmWalked  lengths read by the walk that were not the end marker
+//@ func RdbReader.CountZipmapItems
+//@   arith int
+//@   properties C03
+//@   replay rdb_zipmap
+//@   ghost var zmWalked mathint = 0
+//@   requires nonnil: buf != nil
+//@   modifies buf.i, zmWalked
+//@   set zmWalked = zmWalked + ite(result0 == 0 - 1, 0, 1) after call readZipmapItemLength
+//@   ensures a_field_and_its_value_are_one_item: result == (zmWalked - old(zmWalked)) / 2
+//@   ensures the_cursor_is_put_back_behind_the_count_byte: buf.i == 1
+//@   loop 1:
+//@     invariant walked: n == zmWalked - old(zmWalked) && n >= 0 && buf != nil
